@@ -50,7 +50,10 @@ def behaviour(m: Any, nodes: list) -> list:
     out = []
     for n in nodes:
         ok, caps = m.match(n)
-        out.append((ok, tuple(sorted((k, id(v) if not isinstance(v, tuple) else tuple(id(x) for x in v)) for k, v in caps.items()))))
+        # captured objects are compared by identity; the "rest" of a sequence is a fresh slice each time: a tuple is compared by the identities of its
+        # elements, a str (brackets applied to a text field) by value
+        ident = lambda x: ("str", x) if isinstance(x, str) else id(x)
+        out.append((ok, tuple(sorted(((k, ident(v) if not isinstance(v, tuple) else tuple(ident(x) for x in v)) for k, v in caps.items()), key=repr))))
     return out
 
 
